@@ -16,7 +16,8 @@ from bounded.util import Collector, classify_exception
 ALPHABET = list("()[]{},.;:-\\+'\"%/*|_ \n\tAaXbf019=<>~!@#$^&?`")
 SNIPPETS = ["0.5::", ":-", "\\+", "query(", "evidence(", "'", '"', "/*", "*/", "%", "[", "|", "]", "(", ")", ".", ",", ";",
             "not ", "is ", "=..", "**", "//", "1e", "0x", "0'", "::", "<-", "->", "\\==", "=:=", "1.", ".5", "_", "X",
-            "a.b", "'a'(", "f (", "- 1", "-(", "+(", "{", "}", "t(_)::", "?::", "P::", "\\\\", "\\n", "'\\''", "\"\\\"\""]
+            "a.b", "'a'(", "f (", "- 1", "-(", "+(", "{", "}", "t(_)::", "?::", "P::", "\\\\", "\\n", "'\\''", "\"\\\"\"",
+            "( )", "()", "avg<X>", "<X>", "p() ", "-[", "\\[", " :- ( ). "]
 
 
 class _Timeout(Exception):
@@ -225,7 +226,7 @@ def roundtrip(seed):
             out["violations"].append(("roundtrip:clause-count:" + kind, "%r parses into %d clauses" % (s, len(cls))))
             return out
         back = cls[0]
-        if not (back == t) or type(back) != type(t) and kind not in ("term",):
+        if not (back == t) or type(back) != type(t) and kind not in ("term",) or _probabilities(back) != _probabilities(t):
             out["violations"].append(("roundtrip:not-equal:" + kind, "%r parses back as %r (%s vs %s)"
                                       % (s, str(back), type(t).__name__, type(back).__name__)))
     except _Timeout:
@@ -234,6 +235,148 @@ def roundtrip(seed):
         pass
     except Exception as e:      # noqa
         out["violations"].append(("roundtrip:exception:" + classify_exception(e), "printing raised %s" % classify_exception(e)))
+    finally:
+        signal.alarm(0)
+    return out
+
+
+# ------------------------------------------------------------------ parse -> print -> parse (the infix printer)
+TEXT_BINOPS = BINOPS + [":"]
+TEXT_ATOMS = ["a", "b", "foo", "'A b'", "X", "Y", "_", "1", "42", "-1", "2.5", "-0.5", "1.0e10", '"s"', "[]", "'X'"]
+
+
+def gen_expr_text(rng, depth):
+    """A fully parenthesised argument expression (every operator application in its own parentheses)."""
+    r = rng.random()
+    if depth <= 0 or r < 0.3:
+        return rng.choice(TEXT_ATOMS)
+    if r < 0.4:
+        return "%s(%s)" % (rng.choice(["f", "g", "'q r'"]), ",".join(gen_expr_text(rng, depth - 1) for _ in range(rng.randint(1, 3))))
+    if r < 0.5:
+        items = ",".join(gen_expr_text(rng, depth - 1) for _ in range(rng.randint(1, 3)))
+        return "[%s%s]" % (items, "|T" if rng.random() < 0.2 else "")
+    if r < 0.9:
+        return "(%s %s %s)" % (gen_expr_text(rng, depth - 1), rng.choice(TEXT_BINOPS), gen_expr_text(rng, depth - 1))
+    return "(%s (%s))" % (rng.choice(["-", "\\", "+"]), gen_expr_text(rng, depth - 1))
+
+
+def gen_goal_text(rng, depth):
+    r = rng.random()
+    if depth <= 0 or r < 0.35:
+        k = rng.random()
+        if k < 0.5:
+            return "%s(%s)" % (rng.choice(["p", "q"]), gen_expr_text(rng, 1))
+        if k < 0.8:
+            return "(%s %s %s)" % (gen_expr_text(rng, 1), rng.choice(["=", "<", "is", "\\=", "==", ">="]), gen_expr_text(rng, 2))
+        return rng.choice(["a", "b", "true"])
+    if r < 0.5:
+        return "(%s, %s)" % (gen_goal_text(rng, depth - 1), gen_goal_text(rng, depth - 1))
+    if r < 0.62:
+        return "(%s ; %s)" % (gen_goal_text(rng, depth - 1), gen_goal_text(rng, depth - 1))
+    if r < 0.7:
+        return "(%s -> %s ; %s)" % (gen_goal_text(rng, depth - 1), gen_goal_text(rng, depth - 1), gen_goal_text(rng, depth - 1))
+    if r < 0.75:
+        return "(%s -> %s)" % (gen_goal_text(rng, depth - 1), gen_goal_text(rng, depth - 1))
+    if r < 0.85:
+        return "\\+ (%s)" % gen_goal_text(rng, depth - 1)
+    if r < 0.92:
+        return "findall(X, %s, L)" % gen_goal_text(rng, depth - 1)
+    if r < 0.96:
+        return "call(%s)" % gen_goal_text(rng, depth - 1)
+    return "(X = %s)" % gen_goal_text(rng, depth - 1)
+
+
+def gen_clause_text(rng):
+    k = rng.random()
+    if k < 0.4:
+        return "x(%s)" % gen_expr_text(rng, 3), "fact-with-expression"
+    if k < 0.5:
+        if rng.random() < 0.3:
+            return "%s::(%s : %s)" % (rng.choice(["0.3", "P"]), rng.choice(["m", "X"]), gen_expr_text(rng, 1)), \
+                "probabilistic-fact-operator-head"
+        return "%s::x(%s)" % (rng.choice(["0.3", "P", "(1/3)"]), gen_expr_text(rng, 2)), "probabilistic-fact-with-expression"
+    if k < 0.9:
+        return "h(X) :- %s" % ", ".join(gen_goal_text(rng, 2) for _ in range(rng.randint(1, 3))), "rule-with-control"
+    return "0.4::h(X) :- %s" % gen_goal_text(rng, 2), "probabilistic-rule-with-control"
+
+
+def _probabilities(t, out=None, depth=0):
+    """The probability annotations in a term, by position (== does not look at them)."""
+    out = [] if out is None else out
+    if depth > 50 or t is None or isinstance(t, (int, str)):
+        return out
+    if isinstance(t, list):
+        for x in t:
+            _probabilities(x, out, depth + 1)
+        return out
+    out.append(str(getattr(t, "probability", None)))
+    for a in (getattr(t, "args", ()) or ()):
+        _probabilities(a, out, depth + 1)
+    return out
+
+
+def text_roundtrip(seed):
+    """A clause written as text with explicit parentheses, parsed (t1), printed, parsed again (t2): t1 == t2.  This reaches
+    the infix printer: only terms that come out of the parser carry operator priorities."""
+    from problog.program import PrologString
+    rng = random.Random(seed)
+    text, kind = gen_clause_text(rng)
+    out = dict(text=text, kind=kind, violations=[], nontrivial=False)
+    signal.signal(signal.SIGALRM, _alarm)
+    signal.alarm(10)
+    try:
+        try:
+            c1 = list(PrologString(text + "."))
+        except _Timeout:
+            raise
+        except Exception as e:      # noqa
+            if not classify_exception(e).startswith("problog:"):
+                out["violations"].append(("text-roundtrip:first-parse:" + classify_exception(e), "raised %s" % classify_exception(e)))
+            return out
+        if len(c1) != 1:
+            return out
+        out["nontrivial"] = True
+        t1 = c1[0]
+        s = str(t1)
+        try:
+            c2 = list(PrologString(s + "."))
+        except _Timeout:
+            raise
+        except Exception as e:      # noqa
+            out["violations"].append(("text-roundtrip:not-parsable:" + kind, "printed as %r, which does not parse: %s"
+                                      % (s, classify_exception(e))))
+            return out
+        if len(c2) != 1 or not (c2[0] == t1) or type(c2[0]) != type(t1) or _probabilities(c2[0]) != _probabilities(t1):
+            out["violations"].append(("text-roundtrip:not-equal:" + kind, "printed as %r, which parses back as %r"
+                                      % (s, "; ".join(str(c) for c in c2))))
+            return out
+        # Term.from_string, the other public way back from text to a term.  Worker processes run many cases one after
+        # the other, so this also sees state that one call leaves behind for the next: every 25th case first parses a
+        # clause with a negated head (which from_string itself rejects with ValueError: it is rewritten into several clauses)
+        from problog.logic import Term
+        if seed % 25 == 0:
+            try:
+                Term.from_string("0.4::\\+rain(X) :- windy(X)")
+            except _Timeout:
+                raise
+            except Exception:      # noqa
+                pass
+        try:
+            t3 = Term.from_string(s)
+        except _Timeout:
+            raise
+        except Exception as e:      # noqa
+            out["violations"].append(("text-roundtrip:from_string:" + kind, "Term.from_string(%r) raised %s: %s"
+                                      % (s, classify_exception(e), str(e)[:80])))
+            return out
+        if not (t3 == t1) or type(t3) != type(t1):
+            out["violations"].append(("text-roundtrip:from_string:" + kind, "Term.from_string(%r) gives %r" % (s, str(t3))))
+    except _Timeout:
+        out["violations"].append(("text-roundtrip:timeout", "did not finish within 10 s"))
+    except RecursionError:
+        pass
+    except Exception as e:      # noqa
+        out["violations"].append(("text-roundtrip:exception:" + classify_exception(e), "printing raised %s" % classify_exception(e)))
     finally:
         signal.alarm(0)
     return out
@@ -271,4 +414,16 @@ def run(pid, tier, seed):
         col2.case(r["text"], nontrivial=r["nontrivial"])
         for name, text in r["violations"]:
             col2.violation("bounded:c17:" + name, text, dict(text=r["text"]))
-    return [col.result(), col2.result()]
+    k = 200000 if tier == "thorough" else 30000
+    col3 = Collector("C17:parse-print-parse-roundtrip", "%d seeded clause texts with explicit parentheses around every operator "
+                     "application (facts and probabilistic facts over argument expressions with %d binary and 3 unary operators, "
+                     "negative numbers, lists, compounds; rules and probabilistic rules whose bodies nest conjunction, "
+                     "disjunction, if-then(-else), \\+, findall/3, call/1 and goals as arguments): the parsed clause t1 is "
+                     "printed and parsed again, the result must be one clause == t1 of the same type (this is the only way to "
+                     "reach the infix printer: terms carry operator priorities only when they come out of the parser); "
+                     "non-trivial = the text parsed" % (k, len(TEXT_BINOPS)))
+    for r in pmap("bounded.c17.text_roundtrip", [seed * 7919 + 31 * i for i in range(k)]):
+        col3.case(r["text"], nontrivial=r["nontrivial"])
+        for name, text in r["violations"]:
+            col3.violation("bounded:c17:" + name, "%s (clause text: %s)" % (text, r["text"]), dict(text=r["text"]))
+    return [col.result(), col2.result(), col3.result()]
